@@ -151,6 +151,14 @@ Theorem C03_spec_deterministic : forall s o r1 s1 r2 s2, sstep s o r1 s1 -> sste
 Proof. exact sstep_det. Qed.
 Print Assumptions C03_spec_deterministic.
 
+(* the same one layer higher: a request through the gin handlers ([api_step]: the model the check runs for one
+   history in five) is answered as the specification behind the handlers' guard answers it — changing the password
+   or e-mail of the literal id guest is refused before the accounts are asked, every refusal is one status *)
+Theorem C03_refines_api_step : forall c o, WF c ->
+  exists s', sapi_step (abs c) o (fst (api_step c o)) s' /\ seq s' (abs (snd (api_step c o))).
+Proof. exact api_step_refines. Qed.
+Print Assumptions C03_refines_api_step.
+
 (* [abs] yields a finite map of accounts: every account sits under its own case-folded id, in a slot of the table,
    and no two accounts share a slot *)
 Theorem C03_abs_account_map : forall c, WF c -> sinv (abs c).
